@@ -232,7 +232,10 @@ def judge(t):
     tm, lm = MOD['talker'], MOD['listener']
     tk, err = talker(tm, use_tscf, use_udp, fd, frames)
     tag = '%s/%s/%s' % ('TSCF' if use_tscf else 'NTSCF', 'UDP' if use_udp else 'raw', 'FD' if fd else 'classic')
-    desc = '%s, frames %s' % (tag, ['%s len %d' % f for f in frames])
+    fl = ['%s len %d' % f for f in frames]
+    if len(fl) > 6:
+        fl = fl[:3] + ['... %d frames in all, %d ACF octets' % (len(frames), sum(((16 + f[1] + 3) // 4) * 4 for f in frames))]
+    desc = '%s, frames %s' % (tag, fl)
     if tk is None:
         return [('undecided', 'talker', desc + ': ' + err)], 1, 0, None
     out = []
@@ -363,6 +366,12 @@ def scenarios(tier):
                                  [('ext' if k % 3 else 'std', 8) for k in range((1500 - hdr) // 24)]]
                     for b_ in bulks:
                         out.append((use_tscf, use_udp, fd, tuple(b_)))
+                else:
+                    # NTSCF in the quick tier: the fullest packet only (more than 1023 announced octets: the 11-bit
+                    # ntscf_data_length needs its top bit)
+                    hdr = 12 + (4 if use_udp else 0)
+                    out.append((use_tscf, use_udp, fd, tuple(('ext' if k % 3 else 'std', maxl)
+                                                             for k in range((1500 - hdr) // (80 if fd else 24)))))
                 if not fd and (tier == 'thorough' or (use_tscf == 1 and use_udp == 0)):
                     # three frames only for classic CAN: with FD flags the listener's path count (2^4 per frame) explodes
                     out.append((use_tscf, use_udp, fd, (('ext', 8), ('std', 0), ('std', 3))))
